@@ -30,7 +30,7 @@ REQUIRED_MONITORS = ["ConvexSpheropolygon.area", "ConvexSpheropolygon.signed_are
                      "ConvexSpheropolyhedron.volume", "ConvexSpheropolyhedron.surface_area", "ConvexSpheropolyhedron.mean_curvature",
                      "ConvexPolyhedron.mean_curvature", "ConvexPolyhedron.tau", "ConvexPolyhedron.asphericity", "ConvexPolyhedron.iq",
                      "ConvexPolyhedron.get_dihedral", "r=0:core"]
-REQUIRED_CLASSES = ["radius:0", "radius:>0", "sphero3d", "sphero2d", "convex3d", "listing:star-step", "listing:random", "listing:boundary"]
+REQUIRED_CLASSES = ["radius:0", "radius:>0", "sphero3d", "sphero2d", "convex3d", "listing:star-step", "listing:random", "listing:boundary", "companion-read-first"]
 REL = 1e-9
 _cache = {}
 
@@ -190,6 +190,41 @@ def _radius(rng, size):
     return float(np.exp(rng.uniform(math.log(1e-3), math.log(1e2)))) * size
 
 
+def _companion(rng, rec, cs, cname, frac=0.35):
+    """In a third of the cases a second, *different* solid of the same class is built after the shape under test and read
+    first (dihedrals, curvature, sizes - each judged by the same postconditions), and only then the shape under test is read,
+    with no construction in between: whatever two live objects share behind the scenes (a class-level table keyed by face
+    indices, a module-level buffer) would carry the companion's values over."""
+    if rng.random() >= frac:
+        return
+    for _ in range(30):
+        c = gen.convex_case(rng, tabulated_frac=0.2)
+        if len(c["P"]) <= 30:
+            break
+    P = c["P"][:30]
+    if len(P) != len(c["P"]):
+        P = P[gen.strict_hull_vertices(P)]
+    try:
+        t = cs.ConvexPolyhedron(P.copy()) if cname == "ConvexPolyhedron" else cs.ConvexSpheropolyhedron(P.copy(), float(rng.uniform(0.05, 1.0)) * gen.diameter(P))
+    except Exception:
+        return
+    rec.cls("companion-read-first")
+    for m in (("mean_curvature", "tau", "asphericity", "iq") if cname == "ConvexPolyhedron" else ("volume", "surface_area", "mean_curvature")):
+        try:
+            getattr(t, m)
+        except Exception:
+            pass
+    if cname == "ConvexPolyhedron":
+        with contracts.quiet():
+            nbs = [(a, int(b)) for a in range(t.num_faces) for b in t.neighbors[a] if b > a]
+        for a, b in nbs[:40]:
+            try:
+                t.get_dihedral(a, b)
+            except Exception:
+                pass
+    return t
+
+
 def run_case(i, rng, rec, tier, state):
     cs = state["cs"]
     mode = i % 3
@@ -255,6 +290,7 @@ def run_case(i, rng, rec, tier, state):
         except Exception as e:
             rec.note("construct-failed (judged by C15): " + type(e).__name__)
             return
+        _companion(rng, rec, cs, "ConvexSpheropolyhedron")
         vals = {}
         for m in ("volume", "surface_area", "mean_curvature"):
             try:
@@ -278,6 +314,7 @@ def run_case(i, rng, rec, tier, state):
     except Exception as e:
         rec.note("construct-failed (judged by C15): " + type(e).__name__)
         return
+    _companion(rng, rec, cs, "ConvexPolyhedron")
     for m in ("mean_curvature", "tau", "asphericity", "iq"):
         try:
             getattr(s, m)
